@@ -3,6 +3,8 @@ CONSTANTS
   Classes <- Classes4
   Outs <- OutsC10
   Durs = {1}
+  CDurs <- ZeroDur
+  EDurs <- ZeroDur
   Rets <- RetsTwoSmall
   Advs <- AdvsExact
   Decs <- DecsSleep
